@@ -262,11 +262,27 @@ fn mutating_bodies() -> Vec<(&'static str, String)> {
     }
     // what `for` binds for every kind of iterable: the pair [key, value] with the element / byte /
     // property at that key, in order
-    for src in ["[]", "[7]", "[7, [8], \"s\"]", "\"\"", "\"abc\"", "\"é\"", "\"a€b\"", "\"😀!\"", "\"\\x7f\\n\"", "{}", "{\"b\": 1, \"a\": [2]}", "{\"é\": 1, \"z\": 2, \"\": 3, \"Z\": 4}", "0 .. 3", "-2 .. 0"] {
+    for src in ["[]", "[7]", "[7, [8], \"s\"]", "\"\"", "\"abc\"", "\"é\"", "\"a€b\"", "\"😀!\"", "\"\\x7f\\n\"", "{}", "{\"b\": 1, \"a\": [2]}", "{\"é\": 1, \"z\": 2, \"\": 3, \"Z\": 4}", "{\"10\": 1, \"9\": 2, \"1\": 3, \"2\": 4, \"-1\": 5, \"a\": 6, \"01\": 7}", "0 .. 3", "-2 .. 0"] {
         let is_str = src.starts_with('"');
         let is_obj = src.starts_with('{');
-        for target in ["p", "[k, v]", "[_, v]", "[k, _]"] {
+        for target in ["p", "[k, v]", "[_, v]", "[k, _]", "[k, ..r]", "[..r]", "[_, ..r]", "w[0]", "ho.t", "[w[0], w[1]]", "[ho.a, ho.b]"] {
             let mut b = format!("s := {}\nn := 0\nacc := \"\"\nfor {} in s {{\nn += 1\n", src, target);
+            if !["p", "[k, v]", "[_, v]", "[k, _]"].contains(&target) {
+                // collecting targets and targets that are existing places: print what was bound
+                let shown = match target {
+                    "[k, ..r]" => "print([k, r])",
+                    "[..r]" | "[_, ..r]" => "print(r)",
+                    "w[0]" => "print(w[0])",
+                    "ho.t" => "print(ho.t)",
+                    "[w[0], w[1]]" => "print(w)",
+                    _ => "print([ho.a, ho.b])",
+                };
+                if is_str {
+                    continue; // byte values of multi-byte text cannot be printed
+                }
+                v_push(&mut v, format!("s := {}\nw := [0, 0, 0]\nho := {{\"a\": 0, \"b\": 0, \"t\": 0}}\nn := 0\nfor {} in s {{\nn += 1\n{}\n}}\nprint(n)\nprint(w)\nprint(ho)\n", src, target, shown));
+                continue;
+            }
             let (k, val) = match target {
                 "p" => ("p[0]", "p[1]"),
                 "[k, v]" => ("k", "v"),
